@@ -17,6 +17,8 @@
 -/
 import Chrono.Proofs.TimestampL2
 import Chrono.Extracted.TsLits
+import Chrono.Props.GenDate
+import Chrono.Props.GenTime
 
 namespace Chrono.Props.C02
 open Chrono Chrono.M Chrono.Spec Chrono.Spec.Ts Chrono.Proofs Chrono.Proofs.Ts Chrono.Proofs.Ts2 Chrono.Extracted
@@ -566,12 +568,24 @@ theorem from_ts_fields (secs nsecs : Int) (hs : isI64 secs) (hn : isU32 nsecs) (
   · omega
   · omega
 
-/-! ### zone-aware values: the offset does not enter -/
+/-! ### zone-aware values: the count is that of the UTC reading (offset-independence: by construction of
+the model, compared with the crate — not proved) -/
 
 /-- every timestamp accessor of a zone-aware value (`DateTime<FixedOffset>`, `DateTime<Local>`,
 `DateTime<Utc>`: UTC reading + offset) is the specification's count of the instant `zonedInstNs`
-(the UTC reading alone), for every offset; the deprecated `NaiveDateTime::timestamp*` accessors
-(`self.and_utc().…`) likewise -/
+(the UTC reading alone): conjuncts 1–5 are proved against the specification; conjuncts 6–8
+(`timestamp_subsec_*`) are `rfl` — one division each, tied to the code by literal extraction and ops.
+
+HONEST LABEL for the rest (second audit, audit2/C02.md §2): the block "for every offset `off'` …"
+(conjunct 9) and the deprecated `NaiveDateTime::timestamp*` twins (conjuncts 10–14) are `rfl`, i.e. they
+hold BY CONSTRUCTION OF THE MODEL (`Ts.ztimestamp* z := NaiveDT.timestamp* z.utc`,
+`Ts.naive_timestamp* dt := Ts.ztimestamp* (and_utc dt)`): the model never reads `z.off`, for
+`FixedOffset` as much as for `Utc`/`Local`.  They prove nothing about the crate.  That the Rust bodies of
+`DateTime<Tz>::timestamp*` read `self.datetime` only is carried by the source pins, by the ops
+`ts.zget` / `ts.zsub` / `ts.nget` (the model is asked about the value WITH the offset the implementation
+attached) and by the direct oracles "the timestamp of a zone-aware value depends on its offset" of
+harness/src/props/c02.rs — compared, not proved.  The same holds for conjuncts 4–5 of
+`timestamp_nanos_expect_iff` and conjunct 6 of `wrappers_ok`. -/
 theorem zoned_timestamp_meaning (z : Zoned) (h : NDTInv z.utc) :
     Ts.ztimestamp z = .ok (zonedInstNs z / 1000000000 - (if z.utc.time.frac ≥ 1000000000 then 1 else 0)) ∧
     Ts.ztimestamp z = .ok (instSecs z.utc) ∧
@@ -772,6 +786,309 @@ example :
     Ts.naive_from_timestamp 59 1999999999 = .ok ⟨dateOfYo 1970 1, ⟨59, 1999999999⟩⟩ ∧
     Ts.ztimestamp ⟨⟨dateOfYo 1969 365, ⟨86399, 999999999⟩⟩, 86399⟩ = .ok (-1) ∧
     Ts.ztimestamp_subsec_millis ⟨⟨dateOfYo 2015 181, ⟨86399, 1500000000⟩⟩, -86399⟩ = 1500 := by
+  decide +kernel
+
+/-! ## second audit (audit2/C02.md), closed 2026-09-30 (round 2) -/
+
+/-! ### one value per instant among the non-leap values -/
+
+/-- "yields THE date-time": two valid non-leap values at the same nanosecond position are the same
+value (`instant_unique` needs equal second counts and equal nanosecond fields; here both follow from
+the one number `instNs`) -/
+theorem nonleap_unique (a b : NaiveDT) (ha : NDTInv a) (hb : NDTInv b) (la : NonLeap a) (lb : NonLeap b)
+    (h : instNs a = instNs b) : a = b := by
+  obtain ⟨_, _, _, a3, _⟩ := id ha
+  obtain ⟨_, _, _, b3, _⟩ := id hb
+  unfold NonLeap at la lb
+  unfold instNs at h
+  exact instant_unique a b ha hb (by omega) (by omega)
+
+/-- the sub-second constructors build THE value of the statement: every valid non-leap value lying
+exactly `x` milliseconds / microseconds / nanoseconds from the epoch is what the constructor returns
+for `x` (with `from_millis_floor` / `from_micros_floor` / `from_nanos_exact`: it returns nothing else) -/
+theorem from_units_unique (x : Int) (hx : isI64 x) (dt : NaiveDT) (h : NDTInv dt) (hl : NonLeap dt) :
+    (instNs dt = x * 1000000 → NaiveDT.from_timestamp_millis x = .ok (some dt)) ∧
+    (instNs dt = x * 1000 → NaiveDT.from_timestamp_micros x = .ok (some dt)) ∧
+    (instNs dt = x → NaiveDT.from_timestamp_nanos x = .ok dt) := by
+  have hr := instSecs_range dt h
+  obtain ⟨_, _, _, t3, _⟩ := id h
+  have hl' := hl
+  unfold NonLeap at hl'
+  refine ⟨?_, ?_, ?_⟩
+  · intro hi
+    obtain ⟨r, e1, e2, e3⟩ := from_millis_floor x hx
+    unfold instNs at hi
+    cases r with
+    | none => have := e2.1 rfl; omega
+    | some d =>
+      obtain ⟨i1, i2, i3⟩ := e3 d rfl
+      rw [e1, nonleap_unique d dt i1 h i2 hl (by rw [i3]; unfold instNs; omega)]
+  · intro hi
+    obtain ⟨r, e1, e2, e3⟩ := from_micros_floor x hx
+    unfold instNs at hi
+    cases r with
+    | none => have := e2.1 rfl; omega
+    | some d =>
+      obtain ⟨i1, i2, i3⟩ := e3 d rfl
+      rw [e1, nonleap_unique d dt i1 h i2 hl (by rw [i3]; unfold instNs; omega)]
+  · intro hi
+    obtain ⟨d, e1, i1, i2, i3⟩ := from_nanos_total x hx
+    rw [e1, nonleap_unique d dt i1 h i2 hl (by rw [i3, hi])]
+
+/-! ### the system clock type: the exact boundary of the round trip, and the leap-second values -/
+
+/-- `DateTime → SystemTime → DateTime<Utc>` on EVERY representable value: the first step never
+panics and keeps the position `instNs`; the composition gives the value back EXACTLY for the
+non-leap values (so the `NonLeap` hypothesis of `systemtime_roundtrip` is necessary; what happens
+otherwise is `leap_st_back`) -/
+theorem systemtime_roundtrip_iff (dt : NaiveDT) (h : NDTInv dt) :
+    ∃ p, Ts.to_system_time dt = .ok p ∧ stValid p ∧ stNs p = instNs dt ∧
+      (Ts.from_system_time p.1 p.2 = .ok dt ↔ NonLeap dt) := by
+  obtain ⟨p, e1, v, e2⟩ := to_system_time_exact dt h
+  refine ⟨p, e1, v, e2, ?_, ?_⟩
+  · intro hb
+    obtain ⟨f1, f2⟩ := from_system_time_exact p.1 p.2 v.1 v.2
+    by_cases hr : TS_MIN ≤ p.1 ∧ p.1 ≤ TS_MAX
+    · obtain ⟨dt', g1, _, g3, _⟩ := f1 hr
+      rw [g1] at hb
+      injection hb with hb
+      rw [← hb]; exact g3
+    · rw [f2 (by omega)] at hb
+      cases hb
+  · intro hl
+    obtain ⟨p', g1, g2⟩ := systemtime_roundtrip.1 dt h hl
+    rw [e1] at g1
+    injection g1 with g1
+    rw [g1]; exact g2
+
+/-- a leap-second representation (on ANY second; `frac ≥ 10⁹`) through the system clock type: it
+converts — without a panic — to the system time `frac − 10⁹` ns into the FOLLOWING second (a system time
+cannot carry a leap second; DESIGN §9 observation c).  Converting back: whenever that following second is
+representable (`instSecs dt < TS_MAX`) the result is the valid NON-leap value at the same position
+`instNs`, on the following second with nanosecond field `frac − 10⁹`; for a leap-second value on the
+last representable second `TS_MAX` (+262142-12-31T23:59:60.x) the following second `TS_MAX + 1` is
+outside the representable range and `From<SystemTime> for DateTime<Utc>` panics — the same panic
+`from_system_time_exact` states for every system time outside the range (the instant is not
+representable as a timestamp-built value; this is the statement's "fails exactly when the instant is
+outside the representable range", the conversion being infallible by signature) -/
+theorem leap_st_back (dt : NaiveDT) (h : NDTInv dt) (hl : ¬ NonLeap dt) :
+    ∃ p, Ts.to_system_time dt = .ok p ∧ p.1 = instSecs dt + 1 ∧ p.2 = dt.time.frac - 1000000000 ∧
+      stNs p = instNs dt ∧
+      (instSecs dt < TS_MAX →
+        ∃ dt', Ts.from_system_time p.1 p.2 = .ok dt' ∧ NDTInv dt' ∧ NonLeap dt' ∧ instNs dt' = instNs dt ∧
+          instSecs dt' = instSecs dt + 1 ∧ dt'.time.frac = dt.time.frac - 1000000000 ∧ dt' ≠ dt) ∧
+      (instSecs dt = TS_MAX → Ts.from_system_time p.1 p.2 = .panic) := by
+  have hr := instSecs_range dt h
+  have hr' := hr
+  rw [ts_min_val, ts_max_val] at hr'
+  obtain ⟨_, _, _, t3, t4⟩ := id h
+  unfold NonLeap at hl
+  have e1 : dt.time.frac / 1000000000 = 1 := by omega
+  have e2 : dt.time.frac % 1000000000 = dt.time.frac - 1000000000 := by omega
+  have hS : isI64 (instSecs dt + 1) := by unfold isI64; omega
+  have hN : 0 ≤ dt.time.frac - 1000000000 ∧ dt.time.frac - 1000000000 < 1000000000 := by omega
+  obtain ⟨f1, f2⟩ := from_system_time_exact (instSecs dt + 1) (dt.time.frac - 1000000000) hS hN
+  refine ⟨(instSecs dt + 1, dt.time.frac - 1000000000), by rw [to_system_time_spec dt h, e1, e2], rfl, rfl,
+    by unfold stNs instNs; dsimp only; omega, ?_, ?_⟩
+  · intro hlt
+    obtain ⟨dt', g1, g2, g3, g4⟩ := f1 (by omega)
+    obtain ⟨_, _, _, u3, _⟩ := id g2
+    have g3' := g3
+    unfold NonLeap at g3'
+    have g4' := g4
+    unfold stNs instNs at g4'
+    dsimp only at g4'
+    refine ⟨dt', g1, g2, g3, by rw [g4]; unfold stNs instNs; dsimp only; omega, by omega, by omega, ?_⟩
+    intro hx
+    rw [hx] at g3'
+    omega
+  · intro heq
+    exact f2 (Or.inr (by omega))
+
+/-- kernel-evaluated: the one class of values on which `DateTime → SystemTime → DateTime<Utc>` panics
+(+262142-12-31T23:59:60.5 → system time (8210266876800, 500000000), one second past the range); a
+leap second on 2015-06-30T23:59:60.5 comes back as 2015-07-01T00:00:00.5; a leap-second representation
+on a second :42 (only `with_nanosecond` builds one) likewise lands in the following second -/
+theorem leap_st_back_witness :
+    NDTInv ⟨Date.MAX, ⟨86399, 1500000000⟩⟩ ∧ ¬ NonLeap ⟨Date.MAX, ⟨86399, 1500000000⟩⟩ ∧
+    instSecs ⟨Date.MAX, ⟨86399, 1500000000⟩⟩ = TS_MAX ∧
+    Ts.to_system_time ⟨Date.MAX, ⟨86399, 1500000000⟩⟩ = .ok (8210266876800, 500000000) ∧
+    Ts.from_system_time 8210266876800 500000000 = .panic ∧
+    Ts.from_system_time_local 3600 8210266876800 500000000 = .panic ∧
+    Ts.to_system_time ⟨dateOfYo 2015 181, ⟨86399, 1500000000⟩⟩ = .ok (1435708800, 500000000) ∧
+    Ts.from_system_time 1435708800 500000000 = .ok ⟨dateOfYo 2015 182, ⟨0, 500000000⟩⟩ ∧
+    Ts.to_system_time ⟨dateOfYo 2015 181, ⟨86382, 1999999999⟩⟩ = .ok (1435708783, 999999999) ∧
+    Ts.from_system_time 1435708783 999999999 = .ok ⟨dateOfYo 2015 181, ⟨86383, 999999999⟩⟩ := by
+  decide +kernel
+
+/-! ### `From<SystemTime> for DateTime<Local>` -/
+
+/-- `impl From<SystemTime> for DateTime<Local>` (`DateTime::<Utc>::from(t).with_timezone(&Local)`), for
+every system time with `i64` seconds and whatever offset `off` the zone prescribes: it panics exactly
+when the instant is outside the representable range (conj. 2; conj. 1 — "exactly when the `Utc`
+conversion panics" — and conj. 3 — "the UTC reading is the `Utc` conversion's value, the offset is the
+zone's" — restate how the model composes the two calls and are tied to the code by op
+`ts.from_st_local` and the oracle only); inside the range the result is a value with that offset whose
+UTC reading is the valid non-leap value at the system time's instant, and converting it back to a
+system time gives the same system time -/
+theorem from_system_time_local_exact (off S N : Int) (hS : isI64 S) (hN : 0 ≤ N ∧ N < 1000000000) :
+    (Ts.from_system_time_local off S N = .panic ↔ Ts.from_system_time S N = .panic) ∧
+    (Ts.from_system_time_local off S N = .panic ↔ (S < TS_MIN ∨ S > TS_MAX)) ∧
+    (∀ z, Ts.from_system_time_local off S N = .ok z ↔ (z.off = off ∧ Ts.from_system_time S N = .ok z.utc)) ∧
+    (TS_MIN ≤ S ∧ S ≤ TS_MAX →
+      ∃ z, Ts.from_system_time_local off S N = .ok z ∧ z.off = off ∧ NDTInv z.utc ∧ NonLeap z.utc ∧
+        zonedInstNs z = stNs (S, N) ∧ Ts.to_system_time z.utc = .ok (S, N)) := by
+  obtain ⟨f1, f2⟩ := from_system_time_exact S N hS hN
+  have hcomp : ∀ r : Res NaiveDT,
+      ((r.bind fun dt => Res.ok (Zoned.with_timezone (Ts.and_utc dt) off)) = .panic ↔ r = .panic) ∧
+      (∀ z : Zoned, (r.bind fun dt => Res.ok (Zoned.with_timezone (Ts.and_utc dt) off)) = .ok z ↔
+        (z.off = off ∧ r = .ok z.utc)) := by
+    intro r
+    cases r with
+    | panic =>
+      refine ⟨⟨fun _ => rfl, fun _ => rfl⟩, fun z => ⟨fun hx => (by cases hx), fun hx => (by cases hx.2)⟩⟩
+    | ok d =>
+      refine ⟨⟨fun hx => (by cases hx), fun hx => (by cases hx)⟩, fun z => ⟨?_, ?_⟩⟩
+      · intro hx
+        injection hx with hx
+        subst hx
+        exact ⟨rfl, rfl⟩
+      · rintro ⟨h1, h2⟩
+        injection h2 with h2
+        cases z with
+        | mk u o =>
+          dsimp only at h1 h2
+          subst h1; subst h2; rfl
+  obtain ⟨c1, c2⟩ := hcomp (Ts.from_system_time S N)
+  refine ⟨c1, ?_, c2, ?_⟩
+  · unfold Ts.from_system_time_local
+    rw [c1]
+    constructor
+    · intro hp
+      by_cases hr : TS_MIN ≤ S ∧ S ≤ TS_MAX
+      · obtain ⟨dt, g1, _⟩ := f1 hr
+        rw [g1] at hp; cases hp
+      · omega
+    · exact f2
+  · intro hr
+    obtain ⟨dt, g1, g2, g3, g4⟩ := f1 hr
+    obtain ⟨dt2, k1, k2⟩ := systemtime_roundtrip.2 S N hS hN hr
+    rw [g1] at k1
+    injection k1 with k1
+    subst k1
+    exact ⟨⟨dt, off⟩, (c2 ⟨dt, off⟩).2 ⟨rfl, g1⟩, rfl, g2, g3, g4, k2⟩
+
+/-- non-vacuity: half a second before the epoch through a zone at +13:00 (the `Err` branch of
+`duration_since`, the borrow), the last representable nanosecond, and both panics -/
+example :
+    Ts.from_system_time_local 46800 (-1) 500000000 = .ok ⟨⟨dateOfYo 1969 365, ⟨86399, 500000000⟩⟩, 46800⟩ ∧
+    Ts.from_system_time_local (-37800) TS_MAX 999999999 = .ok ⟨NaiveDT.MAX, -37800⟩ ∧
+    Ts.from_system_time_local 0 (TS_MAX + 1) 0 = .panic ∧
+    Ts.from_system_time_local 3600 (TS_MIN - 1) 999999999 = .panic ∧
+    Ts.from_system_time_local 3600 TS_MIN 0 = .ok ⟨NaiveDT.MIN, 3600⟩ ∧
+    isI64 (TS_MAX + 1) ∧ isI64 (-1) := by
+  decide +kernel
+
+/-- non-vacuity of `from_units_unique` / `nonleap_unique`: −1 ms, −1 µs, −1 ns -/
+example :
+    NDTInv ⟨dateOfYo 1969 365, ⟨86399, 999000000⟩⟩ ∧ NonLeap ⟨dateOfYo 1969 365, ⟨86399, 999000000⟩⟩ ∧
+    instNs ⟨dateOfYo 1969 365, ⟨86399, 999000000⟩⟩ = (-1) * 1000000 ∧
+    instNs ⟨dateOfYo 1969 365, ⟨86399, 999999000⟩⟩ = (-1) * 1000 ∧
+    instNs ⟨dateOfYo 1969 365, ⟨86399, 999999999⟩⟩ = -1 := by
+  decide +kernel
+
+/-! ## generated code = specification (end-to-end compositions with Props/GenDate.lean, Props/GenTime.lean)
+
+`Gen.*` are the definitions tools/extractors/rust2lean.py regenerates from the Rust source on every run.
+None of the 14 top-level timestamp bodies is translated yet (audit2/C02.md gap 1); their callees are.  The
+two theorems below therefore speak about the TRANSLATED callees and accessors and leave exactly the glue of
+`from_timestamp` (the Euclidean split, `+ 719163`, the `i32` test) to the hand model. -/
+
+/-- the TRANSLATED date and time constructors, applied to the Euclidean split of any `i64` count whose
+day number fits `i32` (otherwise `from_timestamp` returns `None` before calling them): no panic; one of
+them yields `None` exactly when the instant is not representable / the nanosecond field invalid; and
+when both yield a value, the pair is (the packed word and the two fields of) the valid value exactly
+`secs` seconds from the epoch with nanosecond field `nsecs` — the specification's `IsAt` -/
+theorem gen_from_ts_callees (secs nsecs : Int) (hs : isI64 secs) (hn : isU32 nsecs)
+    (hd : -2147483648 ≤ secs / 86400 + 719163 ∧ secs / 86400 + 719163 ≤ 2147483647) :
+    ∃ od, Gen.naive_date.NaiveDate.from_num_days_from_ce_opt (secs / 86400 + 719163) = .ok od ∧
+      ((od = none ∨ Gen.naive_time.NaiveTime.from_num_seconds_from_midnight_opt (secs % 86400) nsecs = none)
+        ↔ ¬ tsOk secs nsecs) ∧
+      ∀ y t, od = some y →
+        Gen.naive_time.NaiveTime.from_num_seconds_from_midnight_opt (secs % 86400) nsecs = some t →
+        ∃ dt : NaiveDT, y = dt.date.yof ∧ t = Chrono.Proofs.GenTimeL.tG dt.time ∧ IsAt dt secs nsecs := by
+  obtain ⟨r, e1, e2, e3⟩ := from_timestamp_spec secs nsecs hs hn.1
+  have hE : UNIX_EPOCH_DAY = 719163 := rfl
+  have hmin : I32_MIN = -2147483648 := rfl
+  have hmax : I32_MAX = 2147483647 := rfl
+  rw [GenDate.gen_from_num_days_from_ce_opt_eq _ hd, GenTime.gen_from_num_seconds_from_midnight_opt_eq]
+  unfold NaiveDT.from_timestamp at e1
+  rw [hE, ckI64_ok (by omega) (by omega)] at e1
+  simp only [Res.bind] at e1
+  rw [if_neg (by omega)] at e1
+  cases hdate : Date.from_num_days_from_ce_opt (secs / 86400 + 719163) with
+  | panic => rw [hdate] at e1; cases e1
+  | ok od =>
+    rw [hdate] at e1
+    simp only [] at e1
+    refine ⟨od.map Date.yof, rfl, ?_, ?_⟩
+    · rw [← e2]
+      cases od with
+      | none =>
+        cases ht : Time.from_num_seconds_from_midnight_opt (secs % 86400) nsecs <;>
+          (rw [ht] at e1; injection e1 with e1; simp [← e1])
+      | some d =>
+        cases ht : Time.from_num_seconds_from_midnight_opt (secs % 86400) nsecs with
+        | none => rw [ht] at e1; injection e1 with e1; simp [← e1]
+        | some t => rw [ht] at e1; injection e1 with e1; simp [← e1]
+    · intro y t hy ht
+      cases od with
+      | none => cases hy
+      | some d =>
+        cases htt : Time.from_num_seconds_from_midnight_opt (secs % 86400) nsecs with
+        | none => rw [htt] at ht; cases ht
+        | some t' =>
+          rw [htt] at ht e1
+          injection e1 with e1
+          injection hy with hy
+          injection ht with ht
+          exact ⟨⟨d, t'⟩, hy.symm, ht.symm, e3 _ e1.symm⟩
+
+/-- the TRANSLATED accessors (`NaiveDate::year/month/day`, `NaiveTime::hour/minute/second/nanosecond`)
+read on the value `from_timestamp` builds: `month`/`day` do not panic and, with `year`, form a valid
+calendar date whose closed-form day number is the floor day `719163 + secs / 86400`; the clock fields
+are those of the second of day `secs % 86400`; the nanosecond field is `nsecs` (this is `from_ts_fields`
+with the model's accessors replaced by the generated code) -/
+theorem gen_from_ts_fields (secs nsecs : Int) (hs : isI64 secs) (hn : isU32 nsecs) (dt : NaiveDT)
+    (h : NaiveDT.from_timestamp secs nsecs = .ok (some dt)) :
+    ∃ m d : Nat, Gen.naive_date.NaiveDate.month dt.date.yof = .ok (m : Int) ∧
+      Gen.naive_date.NaiveDate.day dt.date.yof = .ok (d : Int) ∧
+      validYmd (Gen.naive_date.NaiveDate.year dt.date.yof) m d = true ∧
+      dayNum (Gen.naive_date.NaiveDate.year dt.date.yof) m d = 719163 + secs / 86400 ∧
+      Gen.naive_time.NaiveTime.Timelike.hour (Chrono.Proofs.GenTimeL.tG dt.time) = secs % 86400 / 3600 ∧
+      Gen.naive_time.NaiveTime.Timelike.minute (Chrono.Proofs.GenTimeL.tG dt.time) = secs % 3600 / 60 ∧
+      Gen.naive_time.NaiveTime.Timelike.second (Chrono.Proofs.GenTimeL.tG dt.time) = secs % 60 ∧
+      Gen.naive_time.NaiveTime.Timelike.nanosecond (Chrono.Proofs.GenTimeL.tG dt.time) = nsecs := by
+  obtain ⟨m, d, c1, c2, c3, c4, k1, k2, k3, k4⟩ := from_ts_fields secs nsecs hs hn dt h
+  refine ⟨m, d, ?_, ?_, ?_, ?_, ?_, ?_, ?_, ?_⟩
+  · rw [GenDate.gen_month_eq, c1]; rfl
+  · rw [GenDate.gen_day_eq, c2]; rfl
+  · rw [GenDate.gen_year_eq]; exact c3
+  · rw [GenDate.gen_year_eq]; exact c4
+  · rw [GenTime.gen_hour_eq]; exact k1
+  · rw [GenTime.gen_minute_eq]; exact k2
+  · rw [GenTime.gen_second_eq]; exact k3
+  · rw [(GenTime.gen_nanosecond_eq dt.time).1]; exact k4
+
+/-- non-vacuity: the generated callees on the split of −1 s with 999999999 ns, of the leap second
+1435708799 + 1.5·10⁹ ns, of the last second, and a refusal (leap field on :58) -/
+example :
+    Gen.naive_date.NaiveDate.from_num_days_from_ce_opt ((-1) / 86400 + 719163) = .ok (some (dateOfYo 1969 365).yof) ∧
+    Gen.naive_time.NaiveTime.from_num_seconds_from_midnight_opt ((-1) % 86400) 999999999 = some ⟨86399, 999999999⟩ ∧
+    Gen.naive_time.NaiveTime.from_num_seconds_from_midnight_opt (1435708799 % 86400) 1500000000 = some ⟨86399, 1500000000⟩ ∧
+    Gen.naive_time.NaiveTime.from_num_seconds_from_midnight_opt (1435708798 % 86400) 1000000000 = none ∧
+    Gen.naive_date.NaiveDate.from_num_days_from_ce_opt (TS_MAX / 86400 + 719163) = .ok (some Date.MAX.yof) ∧
+    Gen.naive_date.NaiveDate.from_num_days_from_ce_opt ((TS_MAX + 1) / 86400 + 719163) = .ok none := by
   decide +kernel
 
 end Chrono.Props.C02
